@@ -752,11 +752,20 @@ pub fn check(property: &str, tier: &str) -> i32 {
             println!("VIOLATION property={} replay={}", property, path.display());
         }
     }
-    if property == "C04" {
-        // refusals at the capacity limits: the boundary scenarios of C20, judged by C04's oracles
-        let kinds: [u64; 10] = [5, 6, 7, 8, 9, 10, 12, 14, 15, 2];
+    let limit_kinds: &[u64] = match property {
+        "C04" => &[5, 6, 7, 8, 9, 10, 12, 14, 15, 2, 24],
+        "C03" => &[22, 3, 8, 14],
+        "C01" => &[22, 4, 9, 13],
+        "C08" => &[22, 9, 11, 24],
+        "C05" => &[8, 6],
+        "C11" => &[20],
+        _ => &[],
+    };
+    if !limit_kinds.is_empty() {
+        // the boundary scenarios of C20 (large tables, full pools, long names), judged by this property's oracles
+        let kinds = limit_kinds;
         let rounds = if tier == "thorough" { 6 } else { 1 };
-        let jobs: Vec<u64> = (0..rounds).flat_map(|r| kinds.iter().map(move |k| r * 24 + k)).collect();
+        let jobs: Vec<u64> = (0..rounds).flat_map(|r| kinds.iter().map(move |k| r * crate::limits::NKINDS + k)).collect();
         let nextj = AtomicU64::new(0);
         let lim_found: Mutex<Vec<Found>> = Mutex::new(Vec::new());
         let lim_agg = Mutex::new(Agg::default());
@@ -770,7 +779,7 @@ pub fn check(property: &str, tier: &str) -> i32 {
                     let t = crate::limits::scenario(seed, jobs[j]);
                     let r = run_one(&t);
                     lim_agg.lock().unwrap().absorb(&t, &r.stats, jobs[j]);
-                    if let Some(v) = r.violations.iter().find(|v| v.property() == "C04") {
+                    if let Some(v) = r.violations.iter().find(|v| v.property() == property) {
                         lim_found.lock().unwrap().push(Found { trace: t, violation: v.clone() });
                     }
                 });
